@@ -288,6 +288,12 @@ def closure_truth_table(cb, classify, points):
                 if dnf is None:
                     raise ipe.Unsupported("path condition too large")
                 defs.append((dnf, val))
+        t = blk["term"]
+        if t["k"] == "call" and t.get("dest") and t["dest"]["l"] == 0 and not t["dest"]["proj"]:
+            dnf = conditions(cb, bi, origin=co, relevant=lambda a: ipe.is_cmp_atom(a))
+            if dnf is None:
+                raise ipe.Unsupported("path condition too large")
+            defs.append((dnf, co.call_expr(bi)))
     if not defs:
         raise ipe.Unsupported("no assignment of the closure result")
     out = []
